@@ -8,7 +8,7 @@ open PwVerif.CacheForest (TC Kids Root)
 
 /-! Driver for C05.
 Node level: `beh v:kind …`, then `set v | run | submit | complete | clearfailed | cancel | drop | resetrunning`;
-every op prints `R …` (/repo before b54ba0f), `S …` (after b54ba0f) and `N …` (/repo now: + f3b0474), cached and
+every op prints `R …` (/repo before b54ba0f), `S …` (after b54ba0f), `N …` (+ f3b0474) and `H …` (/repo now: + 9a3aae7), cached and
 uncached twin each.
 Composite level: `tleaf | tcomp | tsetin | tremove | treplace` at a path, `trun` prints, for the current key (`Tcur`)
 and the proposed key (`Tprop`): hit or miss, what the cached composite and its cache-free twin return, and the key;
@@ -21,15 +21,17 @@ structure DSt where
   ru : N   -- current tree, uncached
   sc : N   -- proposed, cached
   su : N   -- proposed, uncached
-  nc : N   -- now, cached
-  nu : N   -- now, uncached
+  nc : N   -- KeyboardInterrupt caught in the callback only (before 9a3aae7), cached
+  nu : N   -- …, uncached
+  hc : N   -- /repo now (every BaseException fails the run), cached
+  hu : N   -- …, uncached
   cur : St String
   prop : St String
   forest : Root String
 
 def St0 : St String := { vals := [], kids := [], outs := [], cache := none }
 def DSt.init : DSt :=
-  { beh := [], rc := N.init, ru := N.init, sc := N.init, su := N.init, nc := N.init, nu := N.init, cur := St0, prop := St0, forest := { kids := [], cache := none } }
+  { beh := [], rc := N.init, ru := N.init, sc := N.init, su := N.init, nc := N.init, nu := N.init, hc := N.init, hu := N.init, cur := St0, prop := St0, forest := { kids := [], cache := none } }
 
 def showR : R → String
   | .ret none => "ret:ND"
@@ -47,12 +49,15 @@ def apply (s : DSt) (op : Op) : DSt × List String :=
   let (ru, r2) := step Cfg.repaired beh false s.ru op
   let (sc, r3) := step Cfg.proposed beh true s.sc op
   let (su, r4) := step Cfg.proposed beh false s.su op
-  let (nc, r5) := step Cfg.now beh true s.nc op
-  let (nu, r6) := step Cfg.now beh false s.nu op
-  ({ s with rc, ru, sc, su, nc, nu },
+  let (nc, r5) := step Cfg.kbdOnly beh true s.nc op
+  let (nu, r6) := step Cfg.kbdOnly beh false s.nu op
+  let (hc, r7) := step Cfg.now beh true s.hc op
+  let (hu, r8) := step Cfg.now beh false s.hu op
+  ({ s with rc, ru, sc, su, nc, nu, hc, hu },
    [s!"R c={showR r1} u={showR r2} vc={showVis rc} vu={showVis ru} q={rc.jobs.length}/{ru.jobs.length}",
     s!"S c={showR r3} u={showR r4} vc={showVis sc} vu={showVis su} q={sc.jobs.length}/{su.jobs.length}",
-    s!"N c={showR r5} u={showR r6} vc={showVis nc} vu={showVis nu} q={nc.jobs.length}/{nu.jobs.length}"])
+    s!"N c={showR r5} u={showR r6} vc={showVis nc} vu={showVis nu} q={nc.jobs.length}/{nu.jobs.length}",
+    s!"H c={showR r7} u={showR r8} vc={showVis hc} vu={showVis hu} q={hc.jobs.length}/{hu.jobs.length}"])
 
 def parseBeh (w : String) : Option (Nat × Outcome) :=
   match w.splitOn ":" with
